@@ -491,6 +491,14 @@ class Scripts:
             self.emit('#= attach')
             self.emit('dump')
             self.emit('rx_set_callback 1')
+            if r.random() < 0.3:
+                # the chip kept a hop period from the earlier session and raised a channel change while the host slept;
+                # the fresh handle has no channel list: the flag is acknowledged, nothing else happens
+                self.emit('env loraflags 2')
+                if not pending or crcerr:
+                    self.emit('irq')
+                    self.emit('#= resumehop')
+                    self.emit('dump')
             self.emit('irq')
             self.emit('#= resume %s%s' % (data if pending else '-', ' crc' if crcerr else ''))
 
@@ -1035,6 +1043,8 @@ class Scripts:
                 # a delayed or coalesced preamble / sync-address interrupt in the middle of the packet
                 self.emit('env flag1 %d' % r.choice([1, 2, 3]))
             self.emit('irq' + inh)
+            if r.random() < 0.12:
+                self.emit('rx_get_packet_rssi')   # a polling main loop reads the signal strength in the middle of the packet
             # reference consumption (flags sampled before the in-handler arrivals): on FIFO
             # level the handler takes the header and full batches only
             if 31 < occ < 64:
@@ -1714,6 +1724,14 @@ class Scripts:
                 for k in range(r.choice([1, 2, 6])):
                     self.emit(line + ' !%d=%d' % (k if r.random() < 0.8 else r.randint(0, 8), r.choice([1, 0x101, 0x107, 0x102])))
                 self.emit(line)
+            if mod == LORA:
+                # a mode change whose DIO-mapping or RegOpMode transfer fails, then the mode the handle is still in
+                for _ in range(2):
+                    a, b = r.sample([5, 3, 7, 6], 2)
+                    self.emit('set_opmod %d 0x80' % a)
+                    self.emit('set_opmod %d 0x80 !%d=%d' % (b, r.choice([0, 1, 1, 2]), r.choice([1, 0x101])))
+                    self.emit('set_opmod %d 0x80' % a)
+                    self.emit('dump')
             # packet paths
             if mod == LORA:
                 self.emit('lora_set_implicit_header NULL')
